@@ -42,6 +42,7 @@ type ontHeader struct {
 	Salt   uint32    `json:"salt,omitempty"`   // goes into the timestamp: distinct headers at one height
 	NewCfg []int     `json:"newcfg,omitempty"` // non-nil: header carries NewChainConfig with these pool keys
 	HasCfg bool      `json:"hascfg,omitempty"` // NewCfg meaningful (allows an empty peer list)
+	NewIdx []uint32  `json:"newidx,omitempty"` // consensus index of each NewCfg peer (copied verbatim by the light client); nil: dense 1..n
 	Keys   []int     `json:"keys"`             // bookkeepers (pool indices, in order, duplicates allowed)
 	Sigs   []sigSpec `json:"sigs"`             // SigData in order
 }
@@ -51,7 +52,11 @@ func ontPayload(h ontHeader) []byte {
 	if h.HasCfg {
 		cfg := &vconfig.ChainConfig{Version: 1, View: 1, N: uint32(len(h.NewCfg)), C: uint32(len(h.NewCfg) / 3)}
 		for i, k := range h.NewCfg {
-			cfg.Peers = append(cfg.Peers, &vconfig.PeerConfig{Index: uint32(i + 1), ID: sidePubHex(k)})
+			idx := uint32(i + 1)
+			if len(h.NewIdx) == len(h.NewCfg) {
+				idx = h.NewIdx[i]
+			}
+			cfg.Peers = append(cfg.Peers, &vconfig.PeerConfig{Index: idx, ID: sidePubHex(k)})
 		}
 		info.NewChainConfig = cfg
 	}
